@@ -114,14 +114,24 @@ def gen(ctx):
     return dict(ok=True, facts=facts, changed=changed)
 
 
+def _twin_hook_present(ctx):
+    return os.path.exists(os.path.join(ctx.repo, 'src', 'consensus', 'logical', 'verif_c13_signgen.go'))
+
+
 def correspond(ctx):
     old = vlib.run_driver
+    old_build = vlib.go_build
     vlib.run_driver = _run_driver_parallel
+    if _twin_hook_present(ctx):
+        # drive logical.groupSignGenerator as well (harness/cmd/c13/lgen_hook.go)
+        vlib.go_build = lambda c, moddir, pkg, outname, tags='verif', race=False: old_build(
+            c, moddir, pkg, outname, tags=(tags + ' c13lgen') if outname == 'c13' else tags, race=race)
     try:
         c = vlib.correspond(ctx, 'c13', 'C13', [], canon=canon, timeout=1500,
                             nontrivial=lambda o, x: True)
     finally:
         vlib.run_driver = old
+        vlib.go_build = old_build
     c['name'] = 'c13'
     return [c]
 
